@@ -135,16 +135,21 @@ fn one_source(rep: &mut Report, rng: &mut Rng, setup: &Setup, store: &mut Annota
     let Ok(src_handle) = store.annotate(b) else { return };
     let nt = format!("nt{}", n);
     let target_ids: Vec<String> = (0..setup.texts.len() - 1).map(|i| format!("t{}_{}", n, i)).collect();
+    // configuration knobs: 0 = default, 1 = allow a simple transposition as output, 2 = no transposition annotation, 3 = no resegmentation annotation
+    let knob = *rng.pick(&[0usize, 0, 0, 0, 1, 2, 3]);
     let config = TransposeConfig {
         transposition_id: Some(nt.clone()),
         target_side_ids: target_ids.clone(),
         resegmentation_id: Some(format!("reseg{}", n)),
         source_side: if rng.chance(1, 4) { TranspositionSide::ByIndex(from) } else { TranspositionSide::Auto },
+        allow_simple: knob == 1,
+        no_transposition: knob == 2,
+        no_resegmentation: knob == 3,
         ..Default::default()
     };
     let ctx = |extra: Value| json!({"setup": sd, "source_side": from, "source_ranges": ranges, "source_has_id": with_id, "detail": extra});
     let covered = expected.is_some();
-    let cls = format!("{}/{}{}{}", if setup.complex { "complex" } else { "simple" }, if covered { "covered" } else { "not-covered" }, if ranges.len() > 1 { "/multi-range" } else { "" }, if expected.as_ref().map(|e| e.iter().any(|p| p.len() > 1)).unwrap_or(false) { "/resegmented" } else { "" });
+    let cls = format!("{}/{}{}{}{}", if setup.complex { "complex" } else { "simple" }, if covered { "covered" } else { "not-covered" }, if ranges.len() > 1 { "/multi-range" } else { "" }, if expected.as_ref().map(|e| e.iter().any(|p| p.len() > 1)).unwrap_or(false) { "/resegmented" } else { "" }, ["", "/allow-simple", "/no-transposition", "/no-resegmentation"][knob]);
     let before = snapshot(store);
     rep.eval();
     let result = guard(|| {
@@ -194,8 +199,33 @@ fn one_source(rep: &mut Report, rng: &mut Rng, setup: &Setup, store: &mut Annota
         }
         Ok(Ok(_)) => {}
     }
-    // the transposed annotation(s): right resource, expected pieces in order, identical text piece by piece
     let source_text: Vec<String> = expected.iter().flatten().map(|(_, p)| chars_of(&setup.texts[from], p.0, p.1)).collect();
+    if knob == 1 && store.annotation(target_ids[0].as_str()).is_none() {
+        // a simple transposition as output: one annotation whose text selections are the source piece and its image on every other side
+        rep.eval();
+        let Some(newt) = store.annotation(nt.as_str()) else {
+            rep.violation(format!("C16/new-transposition-missing/{}", cls), ctx(json!({"id": nt})));
+            return;
+        };
+        let mut got = ann_ranges(&newt);
+        got.sort();
+        let mut want: Vec<(usize, usize, usize)> = Vec::new();
+        for (f, p) in expected.iter().flatten() {
+            for to in 0..setup.texts.len() {
+                let m = if to == from { *p } else { map_piece(setup, from, to, *f, *p) };
+                want.push((to, m.0, m.1));
+            }
+        }
+        want.sort();
+        rep.count(&format!("simple-output/{}", cls));
+        if got != want {
+            rep.violation(format!("C16/simple-output/selections-differ/{}", cls), ctx(json!({"got": got, "expected": want})));
+        } else if newt.textselections().any(|t| t.text() != source_text.concat() && expected.iter().flatten().count() == 1) {
+            rep.violation(format!("C16/simple-output/text-differs/{}", cls), ctx(json!({"source_text": source_text})));
+        }
+        return;
+    }
+    // the transposed annotation(s): right resource, expected pieces in order, identical text piece by piece
     let mut k = 0;
     for to in 0..setup.texts.len() {
         if to == from {
@@ -227,6 +257,15 @@ fn one_source(rep: &mut Report, rng: &mut Rng, setup: &Setup, store: &mut Annota
             rep.violation(format!("C16/transposed/offsets-differ/{}", cls), ctx(json!({"target_side": to, "got": got, "expected": want})));
             return;
         }
+    }
+    if knob == 2 {
+        // no transposition annotation was asked for: there must be none, and nothing to transpose back over
+        rep.eval();
+        rep.count(&format!("no-transposition/{}", cls));
+        if store.annotation(nt.as_str()).is_some() {
+            rep.violation(format!("C16/no-transposition/transposition-annotation-present/{}", cls), ctx(json!({"id": nt})));
+        }
+        return;
     }
     // the new transposition links sides with identical text
     rep.eval();
